@@ -50,7 +50,7 @@ func (p *c17) Directed() []string {
 
 const (
 	quickCases       = 1500
-	thoroughCases    = 38000
+	thoroughCases    = 30000
 	quickPerCase     = 32
 	thoroughPerCase  = 128
 	focusedOutOfFour = 3 // of every 4 generated templates, 3 are focused on a (function, position) pair
@@ -67,7 +67,7 @@ func (p *c17) BatchSize(tier string) int {
 	if tier == "thorough" {
 		return 120
 	}
-	return 25
+	return 8 // small batches spread the (heavier) directed cases over several children
 }
 
 func (p *c17) CaseTimeoutS() int { return 120 }
@@ -1002,7 +1002,7 @@ func (cs *caseState) runTemplate(ck *checker, t *tmpl, tag string) outcome {
 					if p != nil && p.k == kNeg {
 						mark("numform.negative_literal")
 					}
-					if len(n.lit) >= 5 {
+					if ip, _, _ := strings.Cut(n.lit, "."); len(ip) >= 5 {
 						mark("numform.large_literal")
 					}
 					break
